@@ -151,7 +151,20 @@ def roundtrip(case):
     doc = json.loads(text)
     d = diff(cim.expected_doc(desc), doc)
     check(d is None, "document-differs-from-description", lambda: "expected document vs dumps(): %s" % d)
-    poison(obj), poison(again), poison(doc)
+    # the object that was just written is revised (names, a path table replaced, an architecture gained) and written again
+    desc2 = must("modify-existing-object", cim.modify_ci, desc, obj)
+    text3 = must("dumps-after-change", obj.dumps)
+    third = ComposeInfo()
+    must("loads-after-change", third.loads, text3)
+    d = diff(cim.expected_snapshot(desc2), must("snapshot", cim.snapshot, third))
+    check(d is None, "reread-differs-after-change", lambda: "object written, changed in place and written again: expected(changed description) vs re-read object: %s" % d)
+    d = diff(cim.expected_doc(desc2), json.loads(text3))
+    check(d is None, "document-differs-after-change", lambda: "expected document vs dumps() after an in-place change: %s" % d)
+    # ... and so is the object that was READ from the first file
+    desc3 = must("modify-loaded-object", cim.modify_ci, cim.as_loaded(desc), again)
+    d = diff(cim.expected_doc(desc3), json.loads(must("dumps-loaded-after-change", again.dumps)))
+    check(d is None, "document-differs-after-change", lambda: "loaded object changed in place and written: %s" % d)
+    poison(obj), poison(again), poison(doc), poison(third)
     return {"nontrivial": cim.is_nontrivial(desc), "labels": cim.labels(desc)}
 
 
